@@ -116,7 +116,12 @@ pub fn judge(bytes: &[u8], out: &Out, rs: Option<&[u8]>) -> Verdict {
             let kind = if out.stderr.contains("overflowed its stack") {
                 "stack-overflow".to_string()
             } else if out.stderr.contains("memory allocation of") {
-                "out-of-memory".to_string()
+                // the only listed way to exhaust memory is macro expansion; an exhaustion on a
+                // text that defines no macro is a different defect and must not be covered by it
+                let text = String::from_utf8_lossy(bytes);
+                let defines_macro = regex::Regex::new(r"[A-Za-z_][A-Za-z0-9_]*\s*<\s*[A-Za-z_][A-Za-z0-9_]*\s*(,\s*[A-Za-z_][A-Za-z0-9_]*\s*)*>\s*(:[^=;]*)?=")
+                    .map_or(false, |re| re.is_match(&text));
+                if defines_macro { "out-of-memory/text-defines-a-macro".to_string() } else { "out-of-memory/no-macro-definition".to_string() }
             } else {
                 format!("signal-{n}")
             };
